@@ -425,6 +425,8 @@ pub struct CallsScenario {
     pub max_calls: usize,
     /// caller serials in use
     pub serials: Vec<u32>,
+    /// connections may also end by their task being dropped (the broker notices on its next send)
+    pub crash_points: bool,
 }
 
 impl Scenario for CallsScenario {
@@ -432,7 +434,7 @@ impl Scenario for CallsScenario {
         "calls".into()
     }
     fn params(&self) -> serde_json::Value {
-        json!({"versions_owner_callerA_callerB_stranger": self.minors, "depth": self.depth, "caller_serials": self.serials, "max_call_entries": self.max_calls})
+        json!({"versions_owner_callerA_callerB_stranger": self.minors, "depth": self.depth, "caller_serials": self.serials, "max_call_entries": self.max_calls, "crash_points": self.crash_points})
     }
     fn prelude(&self) -> Vec<Action> {
         let mut v: Vec<Action> = self.minors.iter().map(|m| connect(*m)).collect();
@@ -502,7 +504,7 @@ impl Scenario for CallsScenario {
             }
         }
         for c in 0..3 {
-            for a in disconnects(m, c, false) {
+            for a in disconnects(m, c, self.crash_points) {
                 out.push((a, true));
             }
         }
